@@ -140,7 +140,10 @@ pub fn udp_scenario(ch: &mut Chooser) -> Exec {
     let v6 = ch.flag("ipv6");
     let (mtu, lomtu) = *ch.of("mtu(external, loopback)", &[(100u32, 200u32), (200, 100), (1500, 65536), (90, 90)]);
     let bind_kind = ch.choose("bind(wildcard|loopback|external)", 3);
-    let dst_kind = ch.choose("destination(loopback|other host)", 2);
+    let dst_kind = ch.choose("destination(loopback|other host|IPv4 broadcast with SO_BROADCAST)", 3);
+    if v6 && dst_kind == 2 {
+        return Exec { outcome: 0, violation: None, features: vec!["skipped-no-broadcast-in-ipv6"] };
+    }
     // the call the datagram goes through: send_to, or connect() followed by send / try_send,
     // or try_send_to
     let api = ch.choose("api(send_to|connect+send|connect+try_send|try_send_to)", 4);
@@ -162,7 +165,7 @@ pub fn udp_scenario(ch: &mut Chooser) -> Exec {
     let hosts = [a, b];
     let guard = net.enter();
     let bind_ip = [any, lo, aip][bind_kind];
-    let dst = SocketAddr::new(if dst_kind == 0 { lo } else { bip }, 9);
+    let dst = SocketAddr::new(if dst_kind == 0 { lo } else if dst_kind == 1 { bip } else { "255.255.255.255".parse().unwrap() }, 9);
     let res: Rc<RefCell<Option<Result<usize, String>>>> = Rc::new(RefCell::new(None));
     let mut exec = Executor::new();
     {
@@ -175,6 +178,12 @@ pub fn udp_scenario(ch: &mut Chooser) -> Exec {
                     return;
                 }
             };
+            if dst_kind == 2 {
+                if let Err(e) = s.set_broadcast(true) {
+                    *res.borrow_mut() = Some(Err(format!("set_broadcast {:?}", e.kind())));
+                    return;
+                }
+            }
             let payload = vec![7u8; size];
             let fe = |e: std::io::Error| format!("{:?} os={:?}", e.kind(), e.raw_os_error());
             let r = match api {
@@ -206,7 +215,7 @@ pub fn udp_scenario(ch: &mut Chooser) -> Exec {
     let obs = format!("v6={v6} mtu={mtu} lomtu={lomtu} bind={bind_kind} api={api} dst={dst} size={size} path_limit={path_limit} -> {r:?}, on the wire {sent_bytes:?}");
     // a socket bound to the loopback address talking to another host (or the reverse) may be
     // refused for addressing reasons; only the size rule is judged there
-    let cross = (bind_kind == 1 && dst_kind == 1) || (bind_kind == 2 && dst_kind == 0);
+    let cross = (bind_kind == 1 && dst_kind >= 1) || (bind_kind == 2 && dst_kind == 0);
     match (&r, fits) {
         (Some(Ok(n)), true) if *n == size => {}
         (Some(Err(_)), true) if cross => {}
@@ -218,7 +227,7 @@ pub fn udp_scenario(ch: &mut Chooser) -> Exec {
                 "udp-mtu",
                 format!(
                     "a {size}-byte UDP payload to {dst} ({} path, MTU {}, at most {path_limit} payload bytes) through {}: the call returned {:?} and {:?} payload bytes went onto the wire; expected {}",
-                    if dst_kind == 0 { "loopback" } else { "external" },
+                    ["loopback", "external", "external (broadcast)"][dst_kind],
                     if dst_kind == 0 { lomtu } else { mtu },
                     ["send_to", "connect + send", "connect + try_send", "try_send_to"][api],
                     r,
